@@ -12,3 +12,6 @@ import PraatModel.Lemmas.Tier
 import PraatModel.Props.C06
 import PraatModel.Props.C07
 import PraatModel.Props.C08
+import PraatModel.Props.C11
+import PraatModel.Props.C09
+import PraatModel.Lemmas.Strip
